@@ -146,7 +146,7 @@ class Inst:
     """one harness instance = one goto program = one family of solver queries."""
     def __init__(self, id, props, harness, entry, tus=(), defs=(), stubs=(), unwind=3, unwindset=(),
                  backends=("z3", "sat"), timeout=120, tier="quick", objbits=12, mem_gb=16,
-                 bounds="", inputs="", c_sources=(), nounwind_assert=False, extra_cbmc=(), ub=True, desc="", model_unwind=17, short_strings=True, truncate_long=False, quick_also=None, native_extra=()):
+                 bounds="", inputs="", c_sources=(), nounwind_assert=False, extra_cbmc=(), ub=True, desc="", model_unwind=24, short_strings=True, truncate_long=False, quick_also=None, native_extra=()):
         self.native_extra = list(native_extra)      # further /repo sources the native (replay) build of the harness file needs
         # quick tier of property P = quick instances whose primary property (props[0]) is P, or that list P in quick_also;
         # the thorough tier of P runs every instance that carries P
